@@ -9,6 +9,8 @@ sys.dont_write_bytecode = True
 REPO = os.environ.get("AHRS_REPO", "/repo")
 sys.path.insert(0, REPO)
 os.environ.setdefault("AHRS_VERIF", "1")
+from . import cover as _cover
+_cover.install(REPO)
 
 import warnings
 warnings.filterwarnings("ignore")
